@@ -115,11 +115,16 @@ class ObservedCompiler(Compiler):  # noqa: D101
 
                     compiled_net.add_edge(link_parent, obs_node, **source_net[parent][node].copy())
 
-        # Check that there are no stochastic nodes in the ancestors
+        # Check that there are no stochastic nodes in the ancestors. Nodes with given observed
+        # data get that data as their output, so their own ancestors do not matter.
+        check_net = nx.DiGraph(compiled_net.edges)
+        check_net.add_nodes_from(compiled_net.nodes)
+        for name in source_net.graph['observed']:
+            check_net.remove_edges_from(list(check_net.in_edges(observed_name(name))))
         for node in uses_observed:
             # Use the observed version to query observed ancestors in the compiled_net
             obs_node = observed_name(node)
-            for ancestor_node in nx.ancestors(compiled_net, obs_node):
+            for ancestor_node in nx.ancestors(check_net, obs_node):
                 if '_stochastic' in source_net.nodes.get(ancestor_node, {}).get('attr_dict', {}):
                     raise ValueError("Observed nodes must be deterministic. Observed "
                                      "data depends on a non-deterministic node {}."
